@@ -877,7 +877,7 @@ func leaves(thorough bool) []*Leaf {
 	}
 	ops := []ol{{"=", "x", false}, {"!=", "x", false}, {"=", "", false}, {"!=", "", false}, {"=~", "x|z", true}, {"!~", "x", true}, {"=~", "^$", true}}
 	if thorough {
-		ops = append(ops, ol{"=", "y", false}, ol{"=", "w", false}, ol{"!=", "z", false}, ol{"=~", ".*", true}, ol{"!~", "^$", true}, ol{"=~", "^x", true}, ol{"!~", "x|y", true})
+		ops = append(ops, ol{"=", "y", false}, ol{"!=", "z", false}, ol{"=~", ".*", true}, ol{"!~", "^$", true})
 	}
 	keys := []string{"a", "b"}
 	if thorough {
@@ -897,7 +897,7 @@ func leaves(thorough bool) []*Leaf {
 func nameFilters(thorough bool) []*NameF {
 	out := []*NameF{nil, {Op: "=", Lit: "m0"}, {Op: "!=", Lit: "m0"}, {Op: "=~", Lit: "m[01]", Regex: true}}
 	if thorough {
-		out = append(out, &NameF{Op: "!~", Lit: "0", Regex: true}, &NameF{Op: "=", Lit: "nosuch"})
+		out = append(out, &NameF{Op: "!~", Lit: "0", Regex: true})
 	}
 	return out
 }
@@ -905,7 +905,7 @@ func nameFilters(thorough bool) []*NameF {
 func keyClauses(thorough bool) []*KeyF {
 	out := []*KeyF{nil, {Form: "eq", Vals: []string{"a"}}, {Form: "in", Vals: []string{"a", "b"}}, {Form: "ne", Vals: []string{"a"}}}
 	if thorough {
-		out = append(out, &KeyF{Form: "re", Vals: []string{"a|b"}}, &KeyF{Form: "eq", Vals: []string{"b"}}, &KeyF{Form: "eq", Vals: []string{"nokey"}})
+		out = append(out, &KeyF{Form: "re", Vals: []string{"a|b"}}, &KeyF{Form: "eq", Vals: []string{"nokey"}})
 	}
 	return out
 }
@@ -960,7 +960,7 @@ func datasets(thorough bool) []Dataset {
 	if thorough {
 		dels = append(dels, &Del{"all", `_measurement="m0"`}, &Del{"B", `b="z"`})
 		places = append(places, []int{2, 3, 1, 3, 3}, []int{1, 1, 2, 2, 3}, []int{3, 0, 3, 3, 0}, []int{0, 3, 0, 3, 3}, []int{3, 3, 0, 0, 0}, []int{1, 0, 0, 2, 0})
-		dels = append(dels, &Del{"all", `b="z"`}, &Del{"all", `_measurement="m1" AND b="w"`}, &Del{"A", `a="x"`}, &Del{"B", ""}, &Del{"all", ""})
+		dels = append(dels, &Del{"all", `_measurement="m1" AND b="w"`}, &Del{"A", `a="x"`})
 	}
 	i := 0
 	for _, p := range places {
@@ -1097,8 +1097,8 @@ func TestCheck(t *testing.T) {
 	vlib.Main(t, &vlib.Check{
 		ID: "C42", Level: "exploration",
 		Rule: "datasets × queries, complete product within the bounds. Series pool m0{a=x}, m0{a=y,b=z}, m1{a=x,b=z}, m1{b=w}, m2{a=y}; one point per series and shard group (two 1h groups A, B). " +
-			"Datasets: placements of the 5 series (absent / A / B / both; quick 3 placements, thorough 9) × one bucket delete through storage.Engine.DeleteBucketRangePredicate (quick: none, all-time a=x, range A no predicate, all-time m0 AND a=y; thorough + all-time _measurement=m0, range B b=z, all-time b=z, all-time m1 AND b=w, range A a=x, range B no predicate, all-time no predicate), layouts cache / tsm alternating (quick 12, thorough 99 datasets). " +
-			"Queries per dataset = APIs × authorizers × shard sets × conditions: authorizers nil, OpenAuthorizer and a fine-grained fake for EVERY subset of the 5 series (34); APIs Store.MeasurementNames, Store.TagKeys and Store.TagValues with shard id sets {A,B},{A},{B} (+{A,B,unknown id} thorough), SHOW MEASUREMENTS [WITH MEASUREMENT] [WHERE], SHOW TAG KEYS [FROM] [WHERE], SHOW TAG VALUES [FROM] WITH KEY =/!=/=~/IN [WHERE] through query.Executor → statement rewriter → StatementExecutor; condition = [_name filter: none, ='m0', !='m0', =~/m[01]/ (+ !~/0/, ='nosuch' thorough)] AND [_tagKey clause: none, ='a', IN(a,b), !='a' (+ =~/a|b/, ='b', ='nokey' thorough)] AND [tag comparison: none or key∈{a,b} (+missing) × (= 'x', != 'x', = '', != '', =~ /x|z/, !~ /x/, =~ /^$/ (+ = 'y', = 'w', != 'z', =~ /.*/, !~ /^$/, =~ /^x/, !~ /x|y/ thorough))]. " +
+			"Datasets: placements of the 5 series (absent / A / B / both; quick 3 placements, thorough 9) × one bucket delete through storage.Engine.DeleteBucketRangePredicate (quick: none, all-time a=x, range A no predicate, all-time m0 AND a=y; thorough + all-time _measurement=m0, range B b=z, all-time m1 AND b=w, range A a=x), layouts cache / tsm alternating (quick 12, thorough 72 datasets). " +
+			"Queries per dataset = APIs × authorizers × shard sets × conditions: authorizers nil, OpenAuthorizer and a fine-grained fake for EVERY subset of the 5 series (34); APIs Store.MeasurementNames, Store.TagKeys and Store.TagValues with shard id sets {A,B},{A},{B} (+{A,B,unknown id} thorough), SHOW MEASUREMENTS [WITH MEASUREMENT] [WHERE], SHOW TAG KEYS [FROM] [WHERE], SHOW TAG VALUES [FROM] WITH KEY =/!=/=~/IN [WHERE] through query.Executor → statement rewriter → StatementExecutor; condition = [_name filter: none, ='m0', !='m0', =~/m[01]/ (+ !~/0/ thorough)] AND [_tagKey clause: none, ='a', IN(a,b), !='a' (+ =~/a|b/, ='nokey' thorough)] AND [tag comparison: none or key∈{a,b} (+missing) × (= 'x', != 'x', = '', != '', =~ /x|z/, !~ /x/, =~ /^$/ (+ = 'y', != 'z', =~ /.*/, !~ /^$/ thorough))]. " +
 			"Oracle: reference over the model of live (per queried shard set) and visible series – see the file header. non-trivial = queries whose reference lists ≥1 name (distinct by construction).",
 		Assumptions: []string{
 			"a series is live in a shard set iff it still holds a point in one of those shards (the delete semantics themselves are C17's business)",
